@@ -26,6 +26,11 @@ func init() {
 		err := alg.RunH2C(alg.Config{Prop: o.prop, Seed: o.seed}, res)
 		if err == nil {
 			alg.RunH2CLengths(alg.Config{Prop: o.prop, Seed: o.seed}, res)
+			n := o.max
+			if n <= 0 {
+				n = 3000
+			}
+			alg.RunHashSweep(alg.Config{Prop: o.prop, Seed: o.seed}, res, n)
 		}
 		return err
 	}
